@@ -941,6 +941,7 @@ class Server:
             asyncio.create_task(self.parse_command(stream)),
         }
         self.connections[key] = connection
+        previous_command = None
         try:
             while True:
                 done, pending = await asyncio.wait(
@@ -965,13 +966,17 @@ class Server:
                             asyncio.create_task(self.parse_command(stream)),
                         )
                         cmd, rest = result
+                        # restart offset is valid only for the transfer
+                        # command, which immediately follows REST
+                        is_transfer = cmd in ("retr", "stor", "appe")
+                        if not (is_transfer and previous_command == "rest"):
+                            connection.restart_offset = 0
+                        previous_command = cmd
                         f = self.commands_mapping.get(cmd)
                         if f is not None:
                             pending.add(
                                 asyncio.create_task(f(connection, rest)),
                             )
-                            if cmd not in ("retr", "stor", "appe"):
-                                connection.restart_offset = 0
                         else:
                             message = f"{cmd!r} not implemented"
                             connection.response("502", message)
